@@ -152,7 +152,15 @@ func GenOAFile(r *R, idx int, o OAOpts) (*ir.Request, []string) {
 			nv := r.Intn(3)
 			for v := 0; v < nv; v++ {
 				fn := uniqueName(used, Pick(r, urlFieldNames))
-				in.Fields = append(in.Fields, &ir.Field{Name: fn, Number: no, Kind: Pick(r, PathScalarKinds)})
+				pf := &ir.Field{Name: fn, Number: no, Kind: Pick(r, PathScalarKinds)}
+				if r.P(1, 4) {
+					pf.Card = "optional" // a path variable is required whatever the field's presence
+					tag("optional_path_field")
+				}
+				if r.P(1, 5) {
+					pf.JSONName = "x" + ir.JSONName("_"+fn) // parameters are named after the variable, not the JSON name
+				}
+				in.Fields = append(in.Fields, pf)
 				no++
 				path += "/{" + fn + "}"
 			}
@@ -163,7 +171,11 @@ func GenOAFile(r *R, idx int, o OAOpts) (*ir.Request, []string) {
 			nq := r.Intn(3)
 			for q := 0; q < nq; q++ {
 				fn := uniqueName(used, Pick(r, urlFieldNames))
-				in.Fields = append(in.Fields, &ir.Field{Name: fn, Number: no, Kind: Pick(r, queryKinds), Ann: ir.Ann{Query: &ir.Query{Name: fn, Required: r.P(1, 4)}}})
+				qf := &ir.Field{Name: fn, Number: no, Kind: Pick(r, queryKinds), Ann: ir.Ann{Query: &ir.Query{Name: fn, Required: r.P(1, 4)}}}
+				if r.P(1, 4) {
+					qf.Card = "optional"
+				}
+				in.Fields = append(in.Fields, qf)
 				no++
 			}
 			if verb == "POST" || verb == "PUT" || verb == "PATCH" {
